@@ -1,24 +1,121 @@
 (* C14 — FRR mode: generated configuration.  Statements only; proofs in
-   Proofs/FrrP.v, FrrSortP.v.
+   Proofs/FrrSortP.v FrrP.v FrrListsP.v FrrShapeP.v FrrSemP.v FrrOutP.v
+   FrrExactP.v FrrWfP.v FrrAdvPermP.v.
    [render S] (Model/FrrRender.v) is the AST of the text createConfig +
    templateConfig produce for the session set S (None = createConfig fails);
-   [sem_out ft um c vrf peer route] / [sem_in] (Model/FrrSem.v) what FRR offers
-   to / accepts from that neighbor, for both readings ft, um of the two doubtful
-   points of FRR's semantics; [intended s route] what session s requests.
+   [sem_out ft um c vrf peer route] / [sem_in] / [sem_networks] (Model/FrrSem.v)
+   what FRR offers to / accepts from that neighbor / originates, for both
+   readings ft, um of the two doubtful points of FRR's semantics (H-frr);
+   [intended s route] what session s requests (from the property statement);
+   [offered s route] the same restricted to the families the templates actually
+   activate; [wf_sessions S] (Model/FrrSpec.v) what the speaker guarantees plus
+   the computable no-name-clash premises, decided by [wf_sessions_b];
+   [route_ok S p]: a probe route whose text is the text of a requested prefix is
+   that prefix (prefix texts are canonical).
 
-   STATUS (see notes/frr.md): proved here for all inputs — inbound rejection,
-   originated networks, session parameters / activation, provenance of routers
-   and neighbors, independence of the semantics from sequence numbers, F15.
-   frr_perm (session order), F15.
-   lists_defined per neighbor block, shape of merged advertisements.
-   NOT proved (time): frr_out_exact, property_lists_subset_allowed, lists_defined
-   lifted to the whole configuration, as theorems; their statements are kept below as comments and they are
-   EVALUATED in Coq on every generated case on the AST parsed from the real text
-   (Corr/Run_Frr.v codes 3, 4) and by the Python oracle. *)
+   All theorems of DESIGN 4/C14 are proved: frr_out_exact (and the stronger
+   frr_out_offered, which also covers the F15 shape), lists_defined,
+   property_lists_subset_allowed, frr_in_denied, frr_networks_exact, frr_params,
+   frr_perm.  The per-case evaluation in Corr/Run_Frr.v stays as translation
+   validation of the real text. *)
 From Coq Require Import String NArith Bool List Permutation Sorted.
-From Verif Require Import Model.FrrRender Model.FrrSem Proofs.FrrSortP Proofs.FrrP Proofs.FrrListsP.
+From Verif Require Import Model.FrrSpec Proofs.FrrSortP Proofs.FrrP Proofs.FrrListsP Proofs.FrrShapeP Proofs.FrrSemP
+     Proofs.FrrOutP Proofs.FrrExactP Proofs.FrrWfP Proofs.FrrAdvPermP.
 Import ListNotations.
 Open Scope string_scope.
+
+
+(* ===== exactness of what each neighbor is offered ===== *)
+
+(* frr_out_exact: for every well-formed session set, every session of it that is
+   not of the F15 shape, every route and both values of both semantic
+   parameters, the generated configuration offers the neighbor exactly what the
+   session requests: the route iff requested, with the requested local preference
+   and exactly the union of the requested (large) communities *)
+Theorem C14_frr_out_exact : forall ft um S c s p,
+  wf_sessions S -> render S = Some c -> In s S -> route_ok S p -> f15_shape s = false ->
+  attrs_equiv (sem_out ft um c (s_vrf s) (peer_tok s) p) (intended s p).
+Proof. exact frr_out_exact. Qed.
+
+(* the same for ALL sessions against [offered] (the families actually activated) *)
+Theorem C14_frr_out_offered : forall ft um S c s p,
+  wf_sessions S -> render S = Some c -> In s S -> route_ok S p ->
+  attrs_equiv (sem_out ft um c (s_vrf s) (peer_tok s) p) (offered s p).
+Proof. exact frr_out_offered. Qed.
+
+(* offered and intended differ only by the activation function, and only for the F15 shape *)
+Theorem C14_offered_vs_intended : forall s a, f15_shape s = false -> act_actual s a = act_intended s a.
+Proof. exact act_actual_intended. Qed.
+
+(* F15, for all inputs: a neighbor peered by interface with DisableMP is offered nothing *)
+Theorem C14_frr_f15_nothing : forall ft um S c s p,
+  wf_sessions S -> render S = Some c -> In s S -> route_ok S p -> f15_shape s = true ->
+  sem_out ft um c (s_vrf s) (peer_tok s) p = None.
+Proof. exact frr_f15_nothing. Qed.
+
+(* lists_defined: every list a route-map of [render S] references is defined
+   (so the parameter um is irrelevant); no well-formedness needed *)
+Theorem C14_lists_defined : forall S c, render S = Some c ->
+  forall nm sq pm m st nx a name, In (IRm nm sq pm m st nx) (items c) -> In (a, name) m -> pl_lines c a name <> [].
+Proof. exact lists_defined. Qed.
+
+Theorem C14_lists_defined_bool : forall S c, render S = Some c -> lists_defined_b c = true.
+Proof. exact lists_defined_bool. Qed.
+
+(* property_lists_subset_allowed (makes ft irrelevant): every prefix line of the
+   configuration sits in a neighbor block whose allowed list permits the same
+   prefix in the same family ... *)
+Theorem C14_property_lists_subset_allowed : forall S c a nm sq pm q,
+  render S = Some c -> In (IPl a nm sq pm (Some q)) (items c) ->
+  exists rs n sq', create_config S = Some rs /\ In n (all_nbrs rs) /\ In (IPl a nm 0 pm (Some q)) (block n) /\
+                   In (IPl a (pl_allowed (nc_s n)) sq' true (Some q)) (items c).
+Proof. exact subset_allowed. Qed.
+
+(* ... and, for a well-formed set, a prefix permitted by a logical list of a
+   session is permitted by that session's allowed list *)
+Theorem C14_property_lists_subset_allowed_sem : forall S c s k a q,
+  wf_sessions S -> render S = Some c -> In s S -> In k (kinds s) ->
+  In (true, Some q) (pl_lines c a (kname s k)) -> In (true, Some q) (pl_lines c a (pl_allowed s)).
+Proof. exact subset_allowed_sem. Qed.
+
+(* frr_in_denied for the neighbor of every session *)
+Theorem C14_frr_in_denied_wf : forall ft um S c s p,
+  wf_sessions S -> render S = Some c -> In s S -> sem_in ft um c (s_vrf s) (peer_tok s) p = false.
+Proof. exact frr_in_denied_wf. Qed.
+
+(* frr_networks_exact: the router of a session's VRF originates exactly the
+   prefixes requested on the sessions of that router, per family, sorted, once *)
+Theorem C14_frr_networks_wf : forall S c s a,
+  wf_sessions S -> render S = Some c -> In s S ->
+  exact_pfx_set (sem_networks c (s_vrf s) a)
+    (map a_pfx (advs_afi a (flat_map s_advs (sessions_with rkey (rkey s) S)))).
+Proof. exact frr_networks_wf. Qed.
+
+(* the neighbor of a session is found under its VRF and peer token, with the session's parameters *)
+Theorem C14_frr_params_found : forall S c rs s r n,
+  wf_sessions S -> render S = Some c -> create_config S = Some rs -> In s S -> In r rs ->
+  mk_router S (rkey s) = Some r -> In n (rc_nbrs r) -> nc_s n = s -> mk_neighbor s (s_advs s) = Some n ->
+  find_nbr c (s_vrf s) (peer_tok s) = Some (render_router r, render_nbr (s_myasn (rc_first r)) n).
+Proof. exact rendered_find. Qed.
+
+Theorem C14_session_has_neighbor : forall S rs s, wf_sessions S -> create_config S = Some rs -> In s S ->
+  exists r n, In r rs /\ mk_router S (rkey s) = Some r /\ In n (rc_nbrs r) /\ nc_s n = s /\
+              mk_neighbor s (s_advs s) = Some n.
+Proof. exact session_nbr. Qed.
+
+(* the premises are decidable; generated cases and the examples below are checked by computation *)
+Theorem C14_wf_sessions_b_sound : forall S, wf_sessions_b S = true -> wf_sessions S.
+Proof. exact wf_sessions_b_sound. Qed.
+
+Theorem C14_route_ok_b_sound : forall S p, route_ok_b S p = true -> route_ok S p.
+Proof. exact route_ok_b_sound. Qed.
+
+(* the merged advertisement list: strictly sorted by prefix text, every entry supported by requested advertisements *)
+Theorem C14_merged_advertisements_shape : forall f advs n, mk_neighbor f advs = Some n ->
+  ssorted atext (nc_advs n) /\ forall y, In y (nc_advs n) -> supp (map advc_of advs) y.
+Proof. exact mk_neighbor_shape. Qed.
+
+(* ===== further structure ===== *)
 
 (* every route received from any rendered neighbor is rejected, whatever ft, um *)
 Theorem C14_frr_in_denied : forall ft um S c rs n route acc fell,
@@ -84,13 +181,29 @@ Proof. intros. split; [apply pl_lines_strip|apply rm_entries_strip]. Qed.
 Theorem C14_sorted_keys_perm : forall l l', Permutation l l' -> sort_s l = sort_s l'.
 Proof. exact sort_s_perm. Qed.
 
-(* the configuration is a function of the SET of sessions: independent of the
-   creation order (= iteration order of the sessions map).  [wf_perm S]: one
-   session per neighbor name and router; the router key determines ASN / id /
-   VRF; a prefix text determines the prefix.  (Independence of the order of a
-   session's advertisement list is checked per case, Corr code 2, not proved.) *)
+(* frr_perm: the configuration is a function of the SET of sessions, independent
+   of the creation order (= iteration order of the sessions map) ... *)
 Theorem C14_frr_perm : forall S S', wf_perm S -> Permutation S S' -> render S = render S'.
 Proof. exact render_perm. Qed.
+
+(* ... and of the order of each session's advertisement list: [adv_perm s s']
+   says s' is s with its advertisement list permuted *)
+Theorem C14_frr_perm_advs : forall S S', wf_sessions S -> Forall2 adv_perm S S' -> render S = render S'.
+Proof. exact render_advperm. Qed.
+
+Theorem C14_frr_perm_full : forall S S1 S',
+  wf_sessions S -> Permutation S S1 -> Forall2 adv_perm S1 S' -> render S = render S'.
+Proof. exact render_perm_full. Qed.
+
+(* the two facts behind it: addToAdvertisements commutes on a merged list, so the
+   merged list does not depend on the order of the advertisements *)
+Theorem C14_add_advertisements_commute : forall cur a b,
+  ssorted atext cur -> tinj (a :: b :: cur) -> ins2 cur a b = ins2 cur b a.
+Proof. exact ins2_comm. Qed.
+
+Theorem C14_merged_advertisements_perm : forall l l', Permutation l l' ->
+  forall cur, ssorted atext cur -> pinj (map ac_pfx (cur ++ l)) -> add_all cur l = add_all cur l'.
+Proof. exact add_all_perm. Qed.
 
 (* shape of the merged advertisement list of a neighbor (addToAdvertisements /
    mergeAdvertisements): every requested advertisement is covered by an entry
@@ -118,13 +231,6 @@ Proof.
   intros [|] [|]; vm_compute; reflexivity.
 Qed.
 
-(* frr_out_exact (NOT PROVED; evaluated on every case, code 3):
-     forall ft um S c s route, wf_sessions S -> render S = Some c -> In s S ->
-       ~ (s_iface s <> "" /\ s_disable_mp s = true) ->
-       attrs_equiv (sem_out ft um c (s_vrf s) (peer_tok s) route) (intended s route).
-   lists_defined (code 4): render S = Some c -> lists_defined_b c = true.
-   property_lists_subset_allowed: every prefix of a property list of a neighbor is in its allowed list. *)
-
 (* instances, all four readings of the semantics: repeated prefix with merged
    communities, local preference, a second neighbor without advertisements *)
 Example C14_frr_out_exact_instance :
@@ -144,3 +250,21 @@ Example C14_frr_out_exact_instance :
   | None => False
   end.
 Proof. vm_compute. repeat split. Qed.
+
+(* non-vacuity of the premises and an application of the theorem *)
+Example C14_wf_nonvacuous :
+  let p := mk_pfx "172.16.1.10/32" {| pfam := F4; pbase := 2886730010; plen := 32 |} in
+  let q := mk_pfx "fc00:f853:ccd:e799::/64" {| pfam := F6; pbase := 334965454937798799971759379190646833152; plen := 64 |} in
+  let s1 := mk_session 100 (Some "10.1.1.254") "" "10.2.2.254" true "" 200 "" None 179 None None None "" "" false false false
+              [mk_adv p 300 [(false, "65000:200"); (true, "64512:1:2")]; mk_adv p 300 [(false, "65000:100")]; mk_adv q 0 [(false, "65000:100")]] ("", "") in
+  let s2 := mk_session 100 (Some "10.1.1.254") "" "192.168.1.1" true "" 200 "" None 179 None None None "" "" false false true [] ("", "") in
+  wf_sessions [s2; s1] /\ route_ok [s2; s1] p /\ f15_shape s1 = false /\
+  forall ft um c, render [s2; s1] = Some c ->
+    attrs_equiv (sem_out ft um c (s_vrf s1) (peer_tok s1) p) (intended s1 p).
+Proof.
+  intros p q s1 s2.
+  assert (W: wf_sessions [s2; s1]) by (apply wf_sessions_b_sound; vm_compute; reflexivity).
+  assert (R: route_ok [s2; s1] p) by (apply route_ok_b_sound; vm_compute; reflexivity).
+  split; [exact W|]. split; [exact R|]. split; [reflexivity|].
+  intros ft um c Hr. apply (frr_out_exact ft um [s2; s1] c s1 p W Hr); [right; left; reflexivity|exact R|reflexivity].
+Qed.
